@@ -58,6 +58,18 @@ def op (name : String) (j : Json) : Except String (Option Json) := do
       let l ← Gen.data2pdb_line a
       Model.parseAtomLine l a.model
     pure (some (exceptJ rowJ r))
+  | "export" =>
+    let a ← atomOfJson (← jVal j "row")
+    match Gen.data2pdb_line a with
+    | .error e => pure (some (errJ e))
+    | .ok l =>
+      let row := Model.parseAtomLine l a.model
+      let l2 : Except Err Str := do
+        let r ← row
+        match Atom.ofRow r with
+        | some b => Gen.data2pdb_line b
+        | none => throw (.unmodelled "row shape")
+      pure (some (Json.mkObj [("line", strJ l), ("row", exceptJ rowJ row), ("line2", exceptJ strJ l2)]))
   | "zone" =>
     let chain ← jStr j "chain"; let num ← jInt j "num"
     let r : Except Err (Str × Str × Int) := do
